@@ -49,7 +49,29 @@ def disk_state(dbdir):
 	return tuple(out)
 
 
-def make_wal(fx):
+def make_wal(fx, flavour=True):
+	if flavour == 'noindex':
+		return make_old_schema(fx)
+	return _make_wal(fx)
+
+
+def make_old_schema(fx):
+	"""A genome file as an older or hand-made schema would have it: without the secondary (non-unique) indexes."""
+	import sqlite3
+	for name in os.listdir(fx.dbdir):
+		if name.endswith(('.gdb', '.db')):
+			con = sqlite3.connect(os.path.join(fx.dbdir, name))
+			idx = [r[0] for r in con.execute("SELECT name FROM sqlite_master WHERE type = 'index' AND sql IS NOT NULL").fetchall()]
+			for i in idx:
+				con.execute(f'DROP INDEX "{i}"')
+			con.commit()
+			con.execute('VACUUM')
+			con.close()
+			if not idx:
+				raise HarnessError('the fixture database has no secondary index to drop')
+
+
+def _make_wal(fx):
 	"""Switch the genome file to SQLite's write-ahead-log journal mode (persistent in the file header), as a database built or last edited with
 	PRAGMA journal_mode=WAL would be."""
 	import sqlite3
@@ -97,17 +119,21 @@ def plan(tier, seed):
 	tasks += [('t_cli_histories', dict(depth=depth, first=e, wal=True)) for e in range(len(CLI_EVENTS))]
 	tasks += [('t_cli_fresh', dict(part=p, nparts=4, pairs=(tier != 'quick'), wal=True)) for p in range(4)]
 	tasks += [('t_library', dict(depth=3 if tier == 'quick' else 4, part=p, nparts=11, wal=True)) for p in range(11)]
+	# ... and on a genome file without its secondary indexes (older / hand-made schema)
+	tasks += [('t_cli_fresh', dict(part=p, nparts=4, pairs=False, wal='noindex')) for p in range(4)]
+	tasks += [('t_cli_histories', dict(depth=1 if tier == 'quick' else 2, first=e, wal='noindex')) for e in range(len(CLI_EVENTS))]
+	tasks += [('t_library', dict(depth=2 if tier == 'quick' else 3, part=p, nparts=11, wal='noindex')) for p in range(0, 11, 5)]
 	tasks += [('t_library', dict(depth=4 if tier == 'quick' else 5, part=p, nparts=11)) for p in range(11)]
 	return tasks
 
 
 def t_cli_histories(depth, first, wal=False):
 	sh = Shard()
-	extra = dict(journal_mode='wal') if wal else {}
+	extra = (dict(journal_mode='wal') if wal is True else dict(schema='no-secondary-indexes')) if wal else {}
 	with fixtures.workdir('c18') as d:
 		fx = clifix.build(os.path.join(d, 'fx'), params=['P0', 'P1'])
 		if wal:
-			make_wal(fx)
+			make_wal(fx, wal)
 		s0 = disk_state(fx.dbdir)
 		states = {s0}
 		expect_fail = {e for e in CLI_EVENTS if e.startswith('fail-')}
@@ -147,14 +173,14 @@ def t_cli_histories(depth, first, wal=False):
 def t_cli_fresh(part, nparts, pairs, wal=False):
 	"""Each event in its own interpreter."""
 	sh = Shard()
-	extra = dict(journal_mode='wal') if wal else {}
+	extra = (dict(journal_mode='wal') if wal is True else dict(schema='no-secondary-indexes')) if wal else {}
 	hists = [(a,) for a in range(len(CLI_EVENTS))]
 	if pairs:
 		hists += [(a, b) for a in range(len(CLI_EVENTS)) for b in range(len(CLI_EVENTS)) if a != b and (a + b) % 3 == 0]
 	with fixtures.workdir('c18f') as d:
 		fx = clifix.build(os.path.join(d, 'fx'), params=['P0', 'P1'])
 		if wal:
-			make_wal(fx)
+			make_wal(fx, wal)
 		s0 = disk_state(fx.dbdir)
 		env = dict(os.environ)
 		for hi, hist in enumerate(hists):
@@ -400,11 +426,11 @@ def lib_cleanup(w):
 def t_library(depth, part, nparts, wal=False):
 	"""BFS over histories; this task owns the subtrees whose second event index mod nparts == part (all start with 'load')."""
 	sh = Shard()
-	extra = dict(journal_mode='wal') if wal else {}
+	extra = (dict(journal_mode='wal') if wal is True else dict(schema='no-secondary-indexes')) if wal else {}
 	with fixtures.workdir('c18l') as d:
 		fx = clifix.build(os.path.join(d, 'fx'), params=['P0'])
 		if wal:
-			make_wal(fx)
+			make_wal(fx, wal)
 		import gambit.db, gambit.db.sqla, gambit.query, gambit.results, gambit.cli      # import everything first, then snapshot the globals
 		fixtures.reset_gambit_globals()
 		seen = {}
@@ -433,7 +459,7 @@ def t_library(depth, part, nparts, wal=False):
 					shutil.rmtree(os.path.join(d, 'fx'))
 					fx = clifix.build(os.path.join(d, 'fx'), params=['P0'])
 					if wal:
-						make_wal(fx)
+						make_wal(fx, wal)
 					continue
 				if any(e in hist for e in ('edit-attr', 'add-taxon', 'delete-genome')):
 					sh.nontrivial += 1
@@ -468,9 +494,9 @@ def replay(case, kind=None):
 	hist = case['history']
 	with fixtures.workdir('c18r') as d:
 		fx = clifix.build(os.path.join(d, 'fx'), params=['P0', 'P1'])
-		wal = case.get('journal_mode') == 'wal'
+		wal = True if case.get('journal_mode') == 'wal' else ('noindex' if case.get('schema') == 'no-secondary-indexes' else False)
 		if wal:
-			make_wal(fx)
+			make_wal(fx, wal)
 		if case['mode'] == 'library':
 			hist = [e for e in hist if not e.startswith('(')]
 			w, v, s0 = lib_replay(fx, tuple(hist), wal)
